@@ -278,3 +278,65 @@ def classify(prop, findings, known):
         else:
             viol.append(fd)
     return hits, viol
+
+
+# ----------------------------------------------------------------------------- bounded models
+MC_STAT = re.compile(r'^(\d+) states generated, (\d+) distinct states found, (\d+) states left')
+
+
+def tlc_model(module, cfg, workdir, workers=8, timeout=1500, xmx="8g", want_vectors=True):
+    """exhaustive TLC run of a bounded model; returns states, transitions, vectors (op scripts), coverage"""
+    os.makedirs(workdir, exist_ok=True)
+    jt = os.path.join(workdir, "jt")
+    os.makedirs(jt, exist_ok=True)
+    env = dict(os.environ, JAVA_TOOL_OPTIONS="-Xss1g -Xmx%s -Djava.io.tmpdir=%s" % (xmx, jt))
+    cmd = ["timeout", str(timeout), "tlc", "-workers", str(workers), "-metadir", os.path.join(workdir, "md"), "-cleanup",
+           "-noGenerateSpecTE", "-config", cfg, module]
+    t = time.time()
+    vecf = os.path.join(workdir, "vectors.txt")
+    with open(os.path.join(workdir, "tlc.out"), "w") as outf:
+        r = subprocess.Popen(cmd, cwd=SPEC, env=env, stdout=subprocess.PIPE, stderr=subprocess.STDOUT, text=True)
+        nvec = 0
+        ok = False
+        gen = dist = 0
+        errors = []
+        with open(vecf, "w") as vf_:
+            for line in r.stdout:
+                if line.startswith('"VEC~~'):
+                    nvec += 1
+                    if want_vectors:
+                        vf_.write(line)
+                    continue
+                outf.write(line)
+                m = MC_STAT.match(line)
+                if m:
+                    gen, dist = int(m.group(1)), int(m.group(2))
+                if "Model checking completed. No error has been found." in line:
+                    ok = True
+                if line.startswith("Error:"):
+                    errors.append(line.strip())
+        r.wait()
+    shutil.rmtree(jt, ignore_errors=True)
+    shutil.rmtree(os.path.join(workdir, "md"), ignore_errors=True)
+    return {"ok": ok, "states": dist, "transitions": gen, "nvec": nvec, "vectors_file": vecf, "errors": errors,
+            "wall_s": round(time.time() - t, 1), "module": module, "cfg": cfg}
+
+
+def read_vectors(path, limit=None, seed=1):
+    """vector lines -> list of op scripts (each a list of ops, prefixed by reset/new by the caller)"""
+    import random
+    vecs = []
+    with open(path) as f:
+        for line in f:
+            try:
+                s = json.loads(line)
+                vecs.append(json.loads(s.split("~~", 1)[1]))
+            except Exception:
+                continue
+    if limit is not None and len(vecs) > limit:
+        short = [v for v in vecs if sum(1 for o in v if o["op"] == "call") <= 1]
+        long_ = [v for v in vecs if sum(1 for o in v if o["op"] == "call") > 1]
+        rnd = random.Random(seed)
+        rnd.shuffle(long_)
+        vecs = short[:limit] + long_[:max(0, limit - len(short))]
+    return vecs
